@@ -45,10 +45,12 @@ Log(a, args, exp) ==
   /\ last' = [a |-> a, args |-> args, exp |-> exp]
   /\ hist' = IF D = 0 THEN hist ELSE Append(hist, [a |-> a, args |-> args, exp |-> exp])   \* D = 0: model checking only
 
-\* the subclass's receive path: process_response, then sync_table
+\* the subclass's receive path (LinuxRIPRouter.run): parse, process_response, then sync_table.
+\* pox.lib.packet.rip refuses a datagram shorter than MIN_LEN = 24 (header + one entry): a response without
+\* entries is left unparsed (version 0) and the receive path drops it before process_response.
 Response(n, i, ents) ==
-  /\ rt' = ProcessResponse(rt, n, i, ents)
-  /\ Log("Response", [n |-> n, i |-> i, ents |-> ents], Obs(rt', NoOut, 1))
+  /\ rt' = IF ents = <<>> THEN rt ELSE ProcessResponse(rt, n, i, ents)
+  /\ Log("Response", [n |-> n, i |-> i, ents |-> ents], Obs(rt', NoOut, IF ents = <<>> THEN 0 ELSE 1))
 
 \* ---- NAMED DEVIATION RequestIgnored -------------------------------------------------------------------
 \* process_request recognises a whole-table request (one entry, address family 0), logs it - and answers
@@ -129,18 +131,23 @@ Tbl == rt.tbl
 \* an entry disappears only when its garbage timer has run out (or configuration overwrites the key)
 DeletedOnlyByGarbage ==
   [][\A k \in Keys : (Present(Tbl[k]) /\ ~Present(Tbl'[k])) => (Tbl[k].tm = "gc" /\ Tbl[k].ttl = 0 /\ last'.a = "Garbage")]_vars
-\* the garbage timer always starts at G, and once running it only counts down: it is never restarted
+\* the garbage timer always starts at G, and once running it only counts down: it is never restarted - unless
+\* one response mentions the destination several times, making it reachable and unreachable again in one step
+Mentions(ents, k) == {j \in DOMAIN ents : ents[j].k = k}
 GarbageFullInterval ==
   [][\A k \in Keys :
        /\ (Tbl'[k].tm = "gc" /\ Tbl[k].tm # "gc") => (Tbl'[k].ttl = G /\ Tbl'[k].m = INF /\ Tbl'[k].chg)
        /\ (Tbl'[k].tm = "gc" /\ Tbl[k].tm = "gc") =>
              \/ (Tbl'[k] = [Tbl[k] EXCEPT !.chg = Tbl'[k].chg] /\ last'.a # "Advance")
-             \/ (last'.a = "Advance" /\ Tbl'[k] = [Tbl[k] EXCEPT !.ttl = @ - last'.args.d])]_vars
+             \/ (last'.a = "Advance" /\ Tbl'[k] = [Tbl[k] EXCEPT !.ttl = @ - last'.args.d])
+             \/ (last'.a = "Response" /\ Cardinality(Mentions(last'.args.ents, k)) > 1
+                    /\ Tbl'[k].ttl = G /\ Tbl'[k].m = INF /\ Tbl'[k].chg /\ Tbl'[k].nh = last'.args.n)]_vars
 \* a reachable route turns unreachable only (a) when its timeout has run out or (b) on the word of its next hop
 UnreachableOnlyWhenDue ==
   [][\A k \in Keys : (Present(Tbl[k]) /\ Tbl[k].m < INF /\ Present(Tbl'[k]) /\ Tbl'[k].m >= INF) =>
         \/ (last'.a = "Timeout" /\ last'.args.k = k /\ Tbl[k].tm = "to" /\ Tbl[k].ttl = 0)
-        \/ (last'.a = "Response" /\ Tbl[k].nh = last'.args.n /\ Tbl'[k].nh = Tbl[k].nh)]_vars
+        \/ (last'.a = "Response" /\ Tbl'[k].nh = last'.args.n
+              /\ (Tbl[k].nh = last'.args.n \/ Cardinality(Mentions(last'.args.ents, k)) > 1))]_vars
 \* the timeout timer is restarted (to the full T) only by a Response; otherwise it only counts down
 TimeoutOnlyRefreshedByResponse ==
   [][\A k \in Keys : (Tbl[k].tm = "to" /\ Tbl'[k].tm = "to" /\ last'.a # "Response") =>
@@ -157,7 +164,6 @@ ConfiguredPermanent ==
 
 \* ---- distance vector: what one advertised route does to the table -------------------------------------------
 \* (stated for responses that mention a key exactly once and validly; k # sender's own /32)
-Mentions(ents, k) == {j \in DOMAIN ents : ents[j].k = k}
 SingleValid(ents, k, n, i) == /\ Cardinality(Mentions(ents, k)) = 1
                               /\ LET e == ents[CHOOSE j \in Mentions(ents, k) : TRUE] IN ~Skipped(e, n, i)
 HeardMetric(ents, k) == Min2(ents[CHOOSE j \in Mentions(ents, k) : TRUE].m + 1, INF)
